@@ -5,8 +5,18 @@ EXTENDS Smooth, Json, IOUtils
 Cases == JsonDeserialize(IOEnv.TRACE_FILE)
 VARIABLES k, v
 
+\* the lambda a V-curve / GCV case reports (kernel: the float itself; accessor: snapped from sgrid)
+VLopt(c) == IF ~c.sgonly THEN c.lopt ELSE IF c.sg = "-inf" THEN "0"
+            ELSE SnapMid(IF c.variant = "vplc" THEN LcGrid(c.lc) ELSE c.grid, c.sg)
+GLopt(c) == IF ~c.sgonly THEN c.lopt ELSE IF c.sg = "-inf" THEN "0" ELSE SnapGrid(c.grid, c.sg)
+WithSgrid(c, lopt, r) ==      \* accessor: sgrid must be log10(lambda) as float32
+    IF r[1] = "REJECT" \/ c.sg = "" \/ c.sgonly THEN r
+    ELSE IF Sgrid32OK(c.sg, lopt) THEN r ELSE <<"REJECT", "Sgrid32", c.sg>>
+
 Verdict(c) ==
     CASE c.op = "fixed" -> FixedVerdict(c.y, c.nd, c.lam, c.out, c.hasp, c.p, c.hints, c.hinted)
+      [] c.op = "vcurve" -> WithSgrid(c, VLopt(c), VCurveVerdict(c.variant, c.y, c.nd, c.grid, c.lc, c.hasp, c.p, c.out, VLopt(c), c.pats, c.hints, c.hinted, c.swept))
+      [] c.op = "gcv" -> WithSgrid(c, GLopt(c), GcvVerdict(c.y, c.nd, c.grid, c.robust, c.hasp, c.p, c.out, GLopt(c), c.hints, c.hinted))
       [] OTHER -> <<"REJECT", "UnknownOp", c.op>>
 
 Init == k \in 1..Len(Cases) /\ v = "todo"
